@@ -44,7 +44,7 @@ structure FrameL (P : KState → Prop) : Prop where
   release : ∀ (s : KState) (k : Key) (n : Node), s.find? k = some n → n.holding ≠ 0 → P s →
     P (s.modify k fun n => { n with holding := n.holding - 1 })
   recycled : ∀ (s : KState) (k : Key) (need : Need) (shell : Bool), P s →
-    P (s.modify k fun n => { n with need := need, shell := shell, holding := 0 })
+    P (s.modify k fun n => { n with need := need, shell := shell })
   addDep : ∀ (s : KState) (src snk : Key), s.hasDep src snk = false → depKindOk src.kind snk.kind = true → P s →
     P { s with deps := s.deps ++ [({ src := src, snk := snk } : Dep)] }
   filterDeps : ∀ (s : KState) (p : Dep → Bool), P s → P { s with deps := s.deps.filter fun d => !p d }
@@ -674,7 +674,7 @@ theorem afterRecycle_preserves (L : FrameL P) (sk : Key) (d : StepDecl) (n : Nod
   intro s s' hp h
   replace h : s.afterRecycle sk d n = .ok s' := h
   unfold KState.afterRecycle at h
-  have hp2 : P (s.modify sk fun n => { n with need := d.need, shell := d.shell, holding := 0 }) :=
+  have hp2 : P (s.modify sk fun n => { n with need := d.need, shell := d.shell }) :=
     L.recycled _ _ _ _ hp
   split at h
   · exact L.markStepPending'_preserves sk _ s' hp2 h
